@@ -135,9 +135,7 @@ Section M.
 
   Lemma bal_eq_dict cls l : bal0 (m_eq_dict tb cls l).
   Proof.
-    unfold m_eq_dict, locked. apply bal_with_lock. apply bal_act. intro n.
-    destruct n; try apply bal_ret.
-    destruct (negb (Nat.eqb (length l) n)); [apply bal_ret|]. bal_tac.
+    unfold m_eq_dict, locked. apply bal_with_lock. bal_tac.
   Qed.
 
   Lemma bal_eq_self cls : bal0 (m_eq_self tb cls).
@@ -246,8 +244,7 @@ Proof.
   - (* Ior *) unfold m_ior. apply locked_one_cs; [apply CM; [simpl; auto 20|discriminate]|].
     apply bal_update.
   - (* EqDict *) unfold m_eq_dict. apply locked_one_cs; [apply CM; [simpl; auto 20|discriminate]|].
-    apply bal_act. intro n. destruct n; try apply bal_ret.
-    destruct (negb (Nat.eqb (length l) n)); [apply bal_ret|]. bal_tac.
+    bal_tac.
   - (* EqSelf *) unfold m_eq_self. apply locked_one_cs; [apply CM; [simpl; auto 20|discriminate]|].
     apply bal_ret.
   - (* Copy *) unfold m_copy. apply locked_one_cs; [apply CM; [simpl; auto 20|discriminate]|].
